@@ -59,6 +59,10 @@ def main(argv=None):
 
     opts = {'second': tier == 'thorough'}
     results = run.verify_many(prop.FUNCS, prop.MODS, opts)
+    # further groups of functions verified against another set of contract
+    # modules (hook tables of different abstractions do not mix)
+    for funcs2, mods2 in getattr(prop, 'MORE', []):
+        results += run.verify_many(funcs2, mods2, opts)
 
     known = [k for k in load_known().get('open', [])
              if pid in k.get('properties', [k.get('property')])]
